@@ -323,9 +323,44 @@ func (ma *MatrixAdjustment) ShouldSkip() bool {
 	}
 }
 
+// matrixAdjustmentKeepSkip is MatrixAdjustment with a skip that is always
+// marshalled.
+type matrixAdjustmentKeepSkip struct {
+	With MatrixAdjustmentWith `yaml:"with"`
+	Skip any                  `yaml:"skip"`
+
+	RemainingFields map[string]any `yaml:",inline"`
+}
+
+// mustKeepSkip reports whether omitempty would drop a skip value that means
+// "skip". Only nil and false mean "don't skip" (see ShouldSkip); every other
+// value, including "", 0 and empty collections, must survive marshalling.
+func (ma *MatrixAdjustment) mustKeepSkip() bool {
+	if !ma.ShouldSkip() {
+		return false
+	}
+	if isEmptyValue(ma.Skip) {
+		return true // would be dropped by inlineFriendlyMarshalJSON
+	}
+	z, ok := ma.Skip.(yaml.IsZeroer)
+	return ok && z.IsZero() // would be dropped by yaml.v3
+}
+
 // MarshalJSON is needed to use inlineFriendlyMarshalJSON.
 func (ma *MatrixAdjustment) MarshalJSON() ([]byte, error) {
+	if ma.mustKeepSkip() {
+		return inlineFriendlyMarshalJSON(&matrixAdjustmentKeepSkip{ma.With, ma.Skip, ma.RemainingFields})
+	}
 	return inlineFriendlyMarshalJSON(ma)
+}
+
+// MarshalYAML keeps a skip value that means "skip" but looks empty.
+func (ma *MatrixAdjustment) MarshalYAML() (any, error) {
+	if ma.mustKeepSkip() {
+		return &matrixAdjustmentKeepSkip{ma.With, ma.Skip, ma.RemainingFields}, nil
+	}
+	type wrappedMatrixAdjustment MatrixAdjustment
+	return (*wrappedMatrixAdjustment)(ma), nil
 }
 
 func (ma *MatrixAdjustment) interpolate(tf stringTransformer) error {
